@@ -111,10 +111,20 @@ def events_for_case(a, cid, gam, K, ids):
         e = ev("cm", h=h, t2=t2s, out=[])
         try:
             shape = (len(ths),) if h == 1 else (3, len(ths) // 3) if len(ths) % 3 == 0 else (len(ths),)
-            m = obj.cm(np.array(ths).reshape(shape)).matrix
+            buf = np.array(ths).reshape(shape)
+            m = obj.cm(buf).matrix
             e["out"] = cm_rows(m)
         except Exception as ex:  # noqa
             e["exc"] = f"{type(ex).__name__}: {ex}"[:200]
+            return
+        # the caller re-uses the SAME array object, modified in place, for the next query
+        rev = list(reversed(range(len(ths))))
+        e2 = ev("cm", h=h, t2=[t2s[i] for i in rev], out=[])
+        try:
+            buf[...] = np.array([ths[i] for i in rev]).reshape(shape)
+            e2["out"] = cm_rows(obj.cm(buf).matrix)
+        except Exception as ex:  # noqa
+            e2["exc"] = f"{type(ex).__name__}: {ex}"[:200]
 
     q_cm(1, s)
 
@@ -252,6 +262,8 @@ def run(ctx: core.Ctx):
     events = []
     for cid, a in enumerate(cases):
         gams = fam if ctx.tier == "thorough" and cid % 8 == 0 else [fam[(cid + ctx.seed) % len(fam)]]
+        if cid % 5 == 0 and all(v in (0, 1) for v in list(a["p"]) + list(a["n"])):
+            gams = [gamma.ident_bool()]          # hard 0/1 decisions stored as booleans
         for g in gams:
             events += events_for_case(a, cid, g, K, ids)
         k = nontrivial_key(a)
